@@ -193,7 +193,15 @@ def mk_factory(rng):
             size = int(numpy.prod(shape)) if shape else 1
             vals = [rng.choice([1, 2, 3, -1, -2]) if nonzero else rng.randint(-3, 3) for _ in range(size)]
             return numpoly.polynomial(numpy.array(vals, dtype=numpy.int64).reshape(shape))
-        dt = rng.choice([numpy.int64, numpy.int64, numpy.float64, numpy.complex128])
+        dt = rng.choice([numpy.int64, numpy.int64, numpy.float64, numpy.complex128, numpy.bool_, numpy.int8, numpy.float32, numpy.uint8])
+        # (bool, int8, float32, uint8: conversions such as asarray(x, dtype=bool) or astype(..., copy=False) are views of the
+        # argument's own storage exactly for these, so an in-place update behind them writes into the argument)
+        if dt in (numpy.bool_, numpy.uint8):
+            q = gen.rand_poly(rng, shape, gen.rand_names(rng, 2), nterms=rng.choice([2, 3]), maxexp=2, dtype=numpy.int64,
+                              raw=rng.random() < 0.25)
+            return numpoly.polynomial_from_attributes(q.exponents, [(numpy.asarray(c) != 0) if dt is numpy.bool_
+                                                                    else numpy.abs(numpy.asarray(c)).astype(dt) for c in q.coefficients],
+                                                      q.names, retain_coefficients=True, retain_names=True)
         return gen.rand_poly(rng, shape, gen.rand_names(rng, 2), nterms=rng.choice([1, 2, 3]), maxexp=2, dtype=dt,
                              raw=rng.random() < 0.25)
     return mk
